@@ -21,9 +21,12 @@ CLAIMS = {
              "leaves the dispatchers only as BadPluginError; a failing file yields did_succeed == False or SystemExit(SYSTEM_ERROR); per-file "
              "outcomes are accumulated so that any failure gives SYSTEM_ERROR (never SUCCESS/FIXED), also for scan-stdin; with --continue-on-error "
              "every file of the list is processed exactly once; the stdin spool file is removed on every exit; failures collected before a fault "
-             "are reported exactly once.",
-        note=TB + "NOT covered: the fix-mode internals below __process_file_fix (assumed contract at this commit), the crash-point clause "
-                  "(a sequential contract cannot express a process dying mid-copy), 'the message names the file'."),
+             "are reported exactly once; in fix mode no temporary file of a pass survives it on any exit (D2 fixed), a pass cut short by a "
+             "failing rule or by the parser has not written the user's file, and an undecodable document surfaces as an error because the "
+             "document is opened as strict utf-8 (errors= / newline= must not be given).",
+        note=TB + "Known finding D8 (a later fix level failing after an earlier level was copied back). NOT covered: the token pass of fix "
+                  "mode below __process_file_fix_tokens (assumed contract: parser + rules + regenerator), the crash-point clause (a "
+                  "sequential contract cannot express a process dying mid-copy; copy-back is shutil.copyfile, D9), 'the message names the file'."),
 }
 
 CLAIMS["C14"] = dict(
@@ -106,7 +109,8 @@ CLAIMS["C11"] = dict(
          "primitives used are proved index-safe and terminating; the pragma-line map has a single writer and is re-created per document.",
     note=TB + "str.split/strip/lower/rstrip are uninterpreted functions with length facts only: the clauses speak about 'the entries of the "
               "split list, stripped and lower-cased', not about characters. int() of the count is an uninterpreted partial function. "
-              "NOT covered: 'the document parses as if the pragma line had been deleted' (parser-level), the pragma line shift in fix mode.")
+              "The pragma line shift of fix mode is proved under C08 (__apply_replacement_fix, adjust_pragma_line_number; D12 fixed). "
+              "NOT covered: 'the document parses as if the pragma line had been deleted' (parser-level).")
 
 CLAIMS["C10"] = dict(
     text="Proof, with ghost sets g_written (targets of shutil.copyfile) and g_files (temporary files that exist): one fix pass overwrites the "
